@@ -7,7 +7,8 @@ patch=$1; shift
 cd /repo || exit 2
 if ! git diff --quiet; then echo "/repo has uncommitted changes"; exit 2; fi
 git apply "$patch" || { echo "patch does not apply"; exit 2; }
-trap 'git -C /repo checkout -- . ; git -C /repo clean -fdq pkg 2>/dev/null' EXIT
+rm -rf /tmp/verif-evidence-backup && cp -r /verif/evidence /tmp/verif-evidence-backup
+trap 'git -C /repo checkout -- . ; git -C /repo clean -fdq pkg 2>/dev/null; rm -rf /verif/evidence; mv /tmp/verif-evidence-backup /verif/evidence' EXIT
 cd /verif
 for p in "$@"; do
   out=$(./check "$p" --tier "${TIER:-quick}" 2>&1); rc=$?
